@@ -21,6 +21,7 @@ import PS.Model.Enum.UHeapSearch
 import PS.Proofs.Enum.Heapq
 import PS.Proofs.Enum.HeapSearch
 import PS.Proofs.Enum.HSSoundInit
+import PS.Proofs.Enum.HSPrio
 namespace PS.C02HS
 open PS PS.G
 
@@ -134,6 +135,22 @@ theorem C02_HS_sound (E : Env S Unit π) (hnd : RowsNodup E.G) (fuel k : Nat) (g
   rw [contains_eq_gen]
   exact (take_sound E hnd fuel k _ _ _ _ _ (ginv_new E) (by intro q hq; cases hq) h).2 p hp
 
+/-- the stored priority is the priority function applied to the program: `SInv` also says that
+    the memo table of `compute_priority` agrees with the specification `prioSpec` and that every
+    heap element `(priority, program)` of `nt` has `priority = prioSpec program nt`; for heap search
+    (`probOps`) that is the probability of the program from `nt` (product of the rule weights) -/
+theorem C02_HS_stored_priority (E : Env S Unit Rat) (t : Rat) (hops : E.ops = probOps t) (s : St S Unit Rat)
+    (hs : SInv E s) (nt : NT S Unit) (e : Rat × Prog) (he : e ∈ s.heapOf nt) :
+    gen E.G e.2 nt = true ∧ e.1 = prob E.G E.W e.2 nt := by
+  have hg := hs.seen_gen nt e.2 (hs.heap_seen nt e he)
+  exact ⟨hg, prioSpec_prob E t hops e.2 nt e.1 hg (hs.heap_prio nt e he)⟩
+
+/-- `compute_priority(S, program)` returns the priority of the specification on derivable programs -/
+theorem C02_HS_compute_priority (E : Env S Unit π) (c : AList (Prog × NT S Unit) π) (hc : CacheOK E c)
+    (nt : NT S Unit) (prog : Prog) (hg : gen E.G prog nt = true) (c' : AList (Prog × NT S Unit) π) (v : π)
+    (h : computePrio E c nt prog = some (c', v)) : prioSpec E prog nt = some v ∧ CacheOK E c' :=
+  computePrio_spec E c hc nt prog hg c' v h
+
 /-! non-vacuity: `S0 → 1 | + S1 S1`, `S1 → 1 | x` -/
 def cInt : Ty := .base "int"
 def cOne : Sym := Sym.prim "1" cInt
@@ -153,6 +170,11 @@ example : (take cE 50 10 (Gen.new cG) []).map (fun r => (r.2.1.length, r.2.2)) =
 
 example : ∀ g' out b, take cE 50 10 (Gen.new cG) [] = some (g', out, b) → ∀ p ∈ out, contains cG p = true :=
   fun g' out b h => C02_HS_sound cE cG_rows 50 10 g' out b h
+
+/-- `(+ x 1)` from `S0`: 1/2 · 3/4 · 1/4 -/
+example : prioSpec cE (.node cPlus [.node cX [], .node cOne []]) cG.start = some (3/32) := by decide +kernel
+example : (computePrio cE [((.node cX [], (cInt, (1, ()))), 3/4), ((.node cOne [], (cInt, (1, ()))), 1/4)] cG.start
+    (.node cPlus [.node cX [], .node cOne []])).map (·.2) = some (3/32) := by decide +kernel
 end Sound
 
 end PS.C02HS
